@@ -5,6 +5,23 @@ use serde_json::{json, Value};
 use std::collections::{BTreeMap, BTreeSet};
 use std::path::PathBuf;
 
+/// property id of the running check (set by the entry point; used by `abort_with_violation`)
+pub static PROP: std::sync::OnceLock<String> = std::sync::OnceLock::new();
+
+/// A violation that cannot be reported through the normal accumulation because the code under test does not
+/// return (nontermination inside one call): write the replay, print the verdict line and leave with exit code 1.
+pub fn abort_with_violation(v: Viol) -> ! {
+    let prop = PROP.get().cloned().unwrap_or_else(|| "?".into());
+    let rdir = verif_root().join("replays").join(&prop);
+    let _ = std::fs::create_dir_all(&rdir);
+    let path = rdir.join("v_nontermination.json");
+    let body = json!({"property": prop, "call": v.call, "symptom": v.symptom, "detail": v.detail, "replay": v.replay});
+    let _ = std::fs::write(&path, serde_json::to_string_pretty(&body).unwrap());
+    println!("VIOLATION property={} replay={}", prop, path.display());
+    println!("  {} :: {} :: {}", v.call, v.symptom, v.detail);
+    std::process::exit(1);
+}
+
 pub fn verif_root() -> PathBuf {
     if let Ok(r) = std::env::var("VERIF_ROOT") {
         return PathBuf::from(r);
